@@ -8,7 +8,7 @@ from vlib import core, dom, refsol, rescorr
 
 ID = "C02"
 GEN = ["reservoir"]
-PROPS = ["C02_convergence.v", "C02_consistency.v", "C01_matrix.v", "C04_step_system.v", "C03_flux_branch.v", "C02_mesh.v", "C10_signatures.v"]
+PROPS = ["C02_convergence.v", "C02_consistency.v", "C01_matrix.v", "C04_step_system.v", "C03_flux_branch.v", "C02_mesh.v", "C10_signatures.v", "C17_user_law.v"]
 T_END = 0.5
 
 
